@@ -281,7 +281,7 @@ Definition rule_tail (fuel : nat) (fos : list (option gfunc)) (rest : list tok) 
   | TNot :: _ | TId _ :: TLParen :: _ =>
       match parse_func fuel rest with
       | Ok (Some o, r) => Ok (mk_rule fos o, r)
-      | Ok (None, r) => Ok (WCrash, r)
+      | Ok (None, r) => Ok (WBadStop, r)
       | Err => Err | OutOfFuel => OutOfFuel
       end
   | TId n :: r | TNonId n :: r => Ok (mk_rule fos (GFunc n false []), r)
@@ -301,7 +301,7 @@ Lemma rule_tail_func fuel fos rest : fstart rest ->
   rule_tail fuel fos rest =
   match parse_func fuel rest with
   | Ok (Some o, r) => Ok (mk_rule fos o, r)
-  | Ok (None, r) => Ok (WCrash, r)
+  | Ok (None, r) => Ok (WBadStop, r)
   | Err => Err | OutOfFuel => OutOfFuel
   end.
 Proof. destruct rest as [|[] [|[] ?]]; cbn; intros H; try contradiction; reflexivity. Qed.
